@@ -11,6 +11,7 @@ import (
 
 	"github.com/filecoin-project/go-f3/certs"
 	"github.com/filecoin-project/go-f3/gpbft"
+	"github.com/filecoin-project/go-f3/pmsg"
 	"github.com/filecoin-project/go-f3/sim/signing"
 	"github.com/filecoin-project/go-f3/zz_verif/kernel"
 )
@@ -66,6 +67,7 @@ type Config struct {
 	CatchUp      bool
 	Restarts     bool
 	WireCodec    bool
+	PartialPath  bool // deliveries take the node's two-stage (partial message + chain exchange) path
 
 	// camps: honest members are split into two camps (used for inputs, link policies and the
 	// split-brain adversary)
@@ -77,7 +79,7 @@ type Config struct {
 	PolicySlow  time.Duration
 
 	// byzantine
-	ByzStrategy int // 0 random 1 split (random values) 2 random+withhold 3 camps (coherent split-brain) 4 camps+flip
+	ByzStrategy int // 0 random 1 split (random values) 2 random+withhold 3 camps (coherent split-brain) 4 camps+flip 5 forger (one forged chain promoted to everybody)
 	ByzRate     int // permille chance of a reaction per honest broadcast
 	ByzTicks    int
 
@@ -169,6 +171,8 @@ type World struct {
 	ctx  context.Context
 	wire map[wireKey]struct{}
 	incompat map[[2]uint64]int
+	pmm        *pmsg.PartialMessageManager
+	chainAvail map[int]map[gpbft.ECChainKey]time.Duration
 	vo   *validatorOracle
 }
 
